@@ -109,6 +109,10 @@ def all_strategies():
 INT_BOUND = 2 ** 20
 
 
+def libname(d):
+    return [x.name if isinstance(x, Sym) else x for x in d]
+
+
 def lst(items, tail=NIL):
     r = tail
     for x in reversed(items):
@@ -139,7 +143,7 @@ def is_number(v):
 class Machine:
     """one interpreter instance of the model"""
 
-    def __init__(self, strategy=None, with_tick=True):
+    def __init__(self, strategy=None, with_tick=True, stdlib=True):
         self.strategy = strategy or Strategy()
         self.trace = []
         self.out = []
@@ -148,6 +152,83 @@ class Machine:
         self.max_steps = 400000
         self.glob = Frame()
         self.install_builtins(with_tick)
+        # module system: sources registered by name, one instance per machine (= per program)
+        self.lib_sources = {}
+        self.lib_instances = {}
+        self.lib_loading = []
+        base = {k: v for k, v in self.glob.vars.items() if k not in ("tick", "display")}
+        self.native_libs = {("scheme", "base"): base, ("scheme", "write"): {"display": self.glob.vars["display"]}}
+        if not stdlib:
+            keep = {k: v for k, v in self.glob.vars.items() if k == "tick"}
+            self.glob = Frame(); self.glob.vars.update(keep)
+
+    # ---------------------------------------------------------------- libraries
+    def register_library(self, form):
+        """form: (define-library (name...) decl...)"""
+        self.lib_sources[tuple(libname(form[1]))] = form
+
+    def library(self, name):
+        name = tuple(name)
+        if name in self.lib_instances:
+            return self.lib_instances[name]
+        if name in self.native_libs:
+            return self.native_libs[name]
+        if name in self.lib_loading:
+            raise SErr("cycle", repr(name))
+        if name not in self.lib_sources:
+            raise SErr("notfound", repr(name))
+        form = self.lib_sources[name]
+        self.lib_loading.append(name)
+        try:
+            env = Frame()
+            exports = []
+            for decl in form[2:]:
+                h = decl[0].name
+                if h == "import":
+                    self.import_into(decl[1:], env)
+                elif h == "export":
+                    for e in decl[1:]:
+                        if isinstance(e, Sym):
+                            exports.append((e.name, e.name))
+                        else:
+                            exports.append((e[1].name, e[2].name))
+                elif h == "begin":
+                    for f in decl[1:]:
+                        if isinstance(f, list) and f and f[0] == Sym("define"):
+                            self.do_define(f, env)
+                        else:
+                            self.ev(f, env)
+            inst = {}
+            for frm, to in exports:
+                if frm not in env.vars:
+                    raise SErr("unbound", frm)
+                inst[to] = env.vars[frm]
+        finally:
+            self.lib_loading.pop()
+        self.lib_instances[name] = inst
+        return inst
+
+    def import_set(self, s):
+        if isinstance(s, list) and s and isinstance(s[0], Sym) and s[0].name in ("only", "except", "prefix", "rename") and len(s) > 1 and isinstance(s[1], list):
+            k = s[0].name
+            m = self.import_set(s[1])
+            if k == "only":
+                ids = {x.name for x in s[2:]}
+                return {n: v for n, v in m.items() if n in ids}
+            if k == "except":
+                ids = {x.name for x in s[2:]}
+                return {n: v for n, v in m.items() if n not in ids}
+            if k == "prefix":
+                return {s[2].name + n: v for n, v in m.items()}
+            ren = {a.name: b.name for a, b in s[2:]}
+            return {ren.get(n, n): v for n, v in m.items()}
+        return dict(self.library(libname(s)))
+
+    def import_into(self, sets, env):
+        acc = {}
+        for s in sets:
+            acc.update(self.import_set(s))
+        env.vars.update(acc)
 
     # ---------------------------------------------------------------- data
     def datum(self, d):
@@ -184,6 +265,9 @@ class Machine:
         """evaluate one top-level form; returns the value or None for a definition"""
         if isinstance(form, list) and form and form[0] == Sym("define"):
             self.do_define(form, self.glob)
+            return None
+        if isinstance(form, list) and form and form[0] == Sym("import") and self.glob.lookup("import") is None:
+            self.import_into(form[1:], self.glob)
             return None
         return self.ev(form, self.glob)
 
@@ -832,6 +916,8 @@ ERR_KINDS = {
     "immutable": lambda e: e["kind"] == "Logic.RequiresMutable",
     "div0": lambda e: e["kind"] == "Logic.DivisionByZero",
     "syntax": lambda e: e["kind"].startswith("Syntax.") or e["kind"].startswith("Logic.MetaCircularSyntax"),
+    "cycle": lambda e: e["kind"] == "Logic.LibraryImportCyclic",
+    "notfound": lambda e: e["kind"] == "Logic.LibraryNotFound",
     "other": lambda e: True,
 }
 
